@@ -29,7 +29,7 @@ def consts(cal, cand, bounds, limits, nows, api=False, pinned=False, pinned_api=
         'Tod': '<- TodMini',
         'EntAt': f'<- EntAt{cal}',
         'EntRun': f'<- EntRun{cal}',
-        'EntOk': '<- EntOkMini',
+        'EntSt': '<- EntStMini',
         'Cand': '<- ' + cand,
         'Bounds': '<- ' + (bounds if bounds == 'BoundsAll' else f'Bounds{cal}{bounds}'),
         'Limits': '{' + ', '.join(str(x) for x in limits) + '}',
@@ -68,7 +68,12 @@ def when(table, i):
 
 def shape(q):
     s = '+'.join(n for n, v in (('after', q[0]), ('before', q[1]), ('limit', q[2])) if v >= 0)
-    return s
+    return s + ('' if q[5] == 1 else '@offset')
+
+
+def zone(table, z):
+    off = table['zone'][z - 1]
+    return f'{"-" if off < 0 else "+"}{abs(off) // 60:02d}:{abs(off) % 60:02d}'
 
 
 def trace_consts(cal):
@@ -97,7 +102,7 @@ def validate_and_collect(chk, pid, cal, jobs):
     byid = {j['id']: j for j in jobs}
     recs = {}
     need = {(r['tid'], r['line']) for r in rows['CLAUSE']} | {(r[1], r[2]) for r in rows['DRIFT'][:5]}
-    stats = dict(append_lines=0, find_lines=0, api_lines=0, nonempty_answers=0, truncated_answers=0, errors=0)
+    stats = dict(append_lines=0, find_lines=0, api_lines=0, nonempty_answers=0, nonempty_offset_answers=0, truncated_answers=0, errors=0)
     nontrivial = set()
     for fn in files:
         with open(fn, 'rt', encoding='utf-8') as f:
@@ -116,7 +121,9 @@ def validate_and_collect(chk, pid, cal, jobs):
                         if st['obs']['res']:
                             stats['nonempty_answers'] += 1
                             a = st['args']
-                            nontrivial.add((apps, st['ev'], a['after'], a['before'], a['limit'], a['ok'], a['now']))
+                            nontrivial.add((apps, st['ev'], a['after'], a['before'], a['limit'], a['ok'], a['now'], a['zone']))
+                            if a['zone'] != 1 and (a['after'] >= 0 or a['before'] >= 0):
+                                stats['nonempty_offset_answers'] += 1
                             if 0 <= a['limit'] == len(st['obs']['res']):
                                 stats['truncated_answers'] += 1
     for k, v in stats.items():
@@ -142,7 +149,8 @@ def validate_and_collect(chk, pid, cal, jobs):
                 'limit': None if q[2] < 0 else q[2],
                 'succeeded': bool(q[3]),
                 'now': when(table, q[4]),
-                'appended': [{'id': e, 'completed': when(table, table['at'][e - 1]), 'ok': table['ok'][e - 1], 'run': table['run'][e - 1]} for e in job['appends']],
+                'bounds_written_with_offset': zone(table, q[5]),
+                'appended': [{'id': e, 'completed': when(table, table['at'][e - 1]), 'status': table['st'][e - 1], 'run': table['run'][e - 1]} for e in job['appends']],
                 'returned_ids': st.get('obs', {}).get('res'),
                 'error': st.get('obs', {}).get('err'),
             }
@@ -161,7 +169,7 @@ def make_jobs(rnd, table, hists, queries, nfind, napi, start=0):
     for i, h in enumerate(hists):
         fq = queries if nfind is None or nfind >= len(queries) else rnd.sample(queries, nfind)
         aq = queries if napi is None or napi >= len(queries) else rnd.sample(queries, napi)
-        qs = [list(x) + [0] for x in fq] + [list(x) + [1] for x in aq]
+        qs = [list(x) + [0] for x in fq] + [list(x) + [1] for x in aq]  # (after, before, limit, ok, now, zone) + api
         jobs.append({'id': start + i, 'table': table, 'appends': h, 'strform': bool(i % 2), 'queries': qs})
     return jobs
 
@@ -186,7 +194,7 @@ def random_jobs(rnd, table, n, nq, start):
             lim = -1 if rnd.random() < 0.4 else rnd.randint(0, 5)
             if a < 0 and b < 0 and lim < 0:
                 lim = rnd.randint(0, 5)
-            qs.append([a, b, lim, rnd.randint(0, 1), rnd.randint(top + 1, ninst - 1), 1 if rnd.random() < 0.2 else 0])
+            qs.append([a, b, lim, rnd.randint(0, 1), rnd.randint(top + 1, ninst - 1), rnd.randint(1, len(table['zone'])), 1 if rnd.random() < 0.2 else 0])
         jobs.append({'id': start + i, 'table': table, 'appends': h, 'strform': bool(i % 2), 'queries': qs})
     return jobs
 
@@ -196,11 +204,11 @@ def run(pid, tier, seed, replay=None):
     rnd = random.Random(seed)
     thorough = tier == 'thorough'
     chk.assumptions = [
-        'bounded model: 16 table entries (8 instants x 2 outcomes, 3-4 run ids, several entries per file, several files per day) on calendars of real contiguous days: '
+        'bounded model: 24 table entries (8 instants x 3 recorded outcomes success/failure/invalid, 3-4 run ids, several entries per file, several files per day) on calendars of real contiguous days: '
         'Y 2023-12-30..2024-01-03 (year end), L 2024-02-28..03-02 (leap day, month end), J 2023-12-30..2024-03-01 (both, 56 empty days between); 5 times of day incl. 00:00:00 and 23:59:59',
         'the wall clock is monotone: every entry completed strictly before the `now` of a query (so "no upper bound" and "before = now" select the same entries)',
         'after+limit without before is unconstrained beyond "subset of the window, newest first" (statement is silent); ties in completion time may be ordered / cut anywhere',
-        'front end: failed/succeeded are called with ISO strings carrying a UTC offset, as lists (the form the web layer hands over); a call that raises is not an answer',
+        'bounds are handed over tz-aware, written with the offsets +00:00, -05:00, +05:30, +13:00, -11:00 (datetimes for find, ISO strings in lists for failed/succeeded - the form the web layer hands over); the zone is not part of the meaning of a query; a call that raises is not an answer',
         'journal files are read back from disk after every append; an entry counts only if it is byte-for-byte (as JSON) the entry that was handed to append',
     ]
     if replay:
@@ -221,20 +229,19 @@ def run(pid, tier, seed, replay=None):
             ('mcApi', consts('Y', 'CandA', 'Q', [0, 1, 2], 'Q', api=True)),
         ]
     else:
-        runs = [
-            ('mcYA', consts('Y', 'CandA', 'Q', [1, 2], 'Q')),
-            ('mcLA', consts('L', 'CandA', 'Q', [1], 'Q')),
-            ('mcApi', consts('Y', 'CandS', 'Q', [0, 1], 'Q', api=True)),
-        ]
+        # quick: one light model run (launches dominate the quick tier); the L / J / front-end / 10-entry
+        # runs and the refutation of the pinned transcription are in thorough
+        runs = [('mcY', consts('Y', 'CandA', 'M', [1, 2], 'Q'))]
     for name, cst in runs:
-        chk.mc(name, "Chronicle_MC.tla", dict(spec="Spec", constants=cst, invariants=INVS, properties=PROPS), workers=MCW)
-    # the transcription of the tree as pinned (commit 8ab289e) is refuted by TLC at design level.
-    # Informational: a counterexample of a MODEL is never an alarm; the verdict comes from the traces
-    # of the real code below.
-    pin = chk.mc('mcPinned', 'Chronicle_MC.tla', dict(spec='Spec', constants=consts('Y', 'CandA', 'Q', [1, 2], 'Q', api=True, pinned=True, pinned_api=True), invariants=INVS, properties=PROPS), expect_ok=False, workers=4)
-    if pin.ok:
-        raise core.Machinery('the transcription of the pinned find is expected to violate C18_FindOK in the model')
-    chk.extra['pinned_transcription_refuted_by'] = pin.violated
+        chk.mc(name, 'Chronicle_MC.tla', dict(spec='Spec', constants=cst, invariants=INVS, properties=PROPS), workers=MCW)
+    if thorough:
+        # the transcription of the tree as pinned (commit 8ab289e) is refuted by TLC at design level.
+        # Informational: a counterexample of a MODEL is never an alarm; the verdict comes from the
+        # traces of the real code below.
+        pin = chk.mc('mcPinned', 'Chronicle_MC.tla', dict(spec='Spec', constants=consts('Y', 'CandA', 'Q', [1, 2], 'Q', api=True, pinned=True, pinned_api=True), invariants=INVS, properties=PROPS), expect_ok=False, workers=4)
+        if pin.ok:
+            raise core.Machinery('the transcription of the pinned find is expected to violate C18_FindOK in the model')
+        chk.extra['pinned_transcription_refuted_by'] = pin.violated
     # 2. GEN
     if thorough:
         gens = [
@@ -247,10 +254,10 @@ def run(pid, tier, seed, replay=None):
         nrand, nrq = 600, 60
     else:
         gens = [
-            ('Y', 'genYA', consts('Y', 'CandA', 'Q', [0, 1, 2], 'Q'), 40, 10),
-            ('L', 'genLA', consts('L', 'CandA', 'Q', [0, 1, 2], 'Q'), 30, 8),
+            ('Y', 'genYA', consts('Y', 'CandA', 'Q', [0, 1, 2], 'Q'), 45, 12),
+            ('J', 'genJS', consts('J', 'CandS', 'Q', [0, 1, 2], 'Q'), 40, 10),
         ]
-        nrand, nrq = 60, 40
+        nrand, nrq = 50, 40
     jobs = {c: [] for c in SETS}
     tables = {}
     nid = 0
@@ -262,10 +269,10 @@ def run(pid, tier, seed, replay=None):
         new = make_jobs(rnd, table, hists, queries, nfind, napi, start=nid)
         nid += len(new)
         jobs[cal] += new
-    if 'J' not in tables:  # the tables of J are needed for the random extras: print them (no histories wanted)
-        tables['J'] = generate(chk, 'genJ', consts('J', 'CandS', 'Q', [1], 'Q'))[0]
     for cal in SETS:
-        new = random_jobs(rnd, tables[cal], nrand if cal == 'J' else nrand // 3, nrq, start=nid)
+        if cal not in tables:
+            continue
+        new = random_jobs(rnd, tables[cal], nrand if cal == 'J' or not thorough else nrand // 3, nrq, start=nid)
         nid += len(new)
         jobs[cal] += new
         chk.counters['random_extra_traces'] = chk.counters.get('random_extra_traces', 0) + len(new)
@@ -276,14 +283,14 @@ def run(pid, tier, seed, replay=None):
             chk.samples.append(
                 {
                     'calendar': cal,
-                    'appends': [[e, when(t, t['at'][e - 1]), 'success' if t['ok'][e - 1] else 'failure'] for e in j['appends']],
-                    'queries': [{'api': bool(q[5]), 'after': when(t, q[0]), 'before': when(t, q[1]), 'limit': None if q[2] < 0 else q[2], 'succeeded': bool(q[3]), 'now': when(t, q[4])} for q in j['queries'][:2]],
+                    'appends': [[e, when(t, t['at'][e - 1]), t['st'][e - 1]] for e in j['appends']],
+                    'queries': [{'api': bool(q[6]), 'after': when(t, q[0]), 'before': when(t, q[1]), 'offset': zone(t, q[5]), 'limit': None if q[2] < 0 else q[2], 'succeeded': bool(q[3]), 'now': when(t, q[4])} for q in j['queries'][:2]],
                 }
             )
     # 3 + 4
     for cal in SETS:
         validate_and_collect(chk, pid, cal, jobs[cal])
-    for k in ('append_lines', 'find_lines', 'api_lines', 'nonempty_answers', 'truncated_answers'):
+    for k in ('append_lines', 'find_lines', 'api_lines', 'nonempty_answers', 'nonempty_offset_answers', 'truncated_answers'):
         if not chk.counters.get(k):
             raise core.Machinery(f'vacuous run: counter {k} is zero')
     return chk.finish(
